@@ -553,4 +553,293 @@ theorem sketchy_bracket (sqrt pw : R → R) (hsq : ∀ x, 0 ≤ x → sqrt x * s
 
 end SkBracket
 
+section GuardLemmas
+variable {R : Type} [Field R] [LinearOrder R] [IsStrictOrderedRing R] [StarRing R] [TrivialStar R]
+  [StarOrderedRing R] {d k : ℕ}
+
+theorem sqrt_zero' (sqrt : R → R) (hsq : ∀ x, 0 ≤ x → sqrt x * sqrt x = x) : sqrt 0 = 0 :=
+  mul_self_eq_zero.mp (hsq 0 le_rfl)
+
+theorem sqrt_one' (sqrt : R → R) (hsq : ∀ x, 0 ≤ x → sqrt x * sqrt x = x) (hs0 : ∀ x, 0 ≤ sqrt x) : sqrt 1 = 1 := by
+  have h1 := hsq 1 zero_le_one
+  have h0 := hs0 1
+  have : (sqrt 1 - 1) * (sqrt 1 + 1) = 0 := by linear_combination h1
+  rcases mul_eq_zero.mp this with h | h
+  · linarith
+  · linarith
+
+/-- a kept direction has a strictly positive singular value -/
+theorem kept_sq_pos {M : Matrix (Fin d) (Fin d) R} {o : SvdOut R d} (h : SpecM M o) (a : Fin k)
+    (hka : kept k o a = true) : 0 < sAt o.s a.1 * sAt o.s a.1 := by
+  have hpos : 0 < (sAt o.s a.1 - cutoff k o) * (sAt o.s a.1 + cutoff k o) := of_decide_eq_true hka
+  have hc : 0 ≤ cutoff k o := cutoff_nonneg h
+  have hs : 0 ≤ sAt o.s a.1 := by
+    unfold sAt; split_ifs
+    · exact h.nonneg _
+    · exact le_rfl
+  have : 0 < sAt o.s a.1 := by
+    by_contra hn
+    have h0 : sAt o.s a.1 = 0 := le_antisymm (not_lt.mp hn) hs
+    rw [h0] at hpos
+    nlinarith
+  exact mul_pos this this
+
+theorem stepO_V_of_not_kept (β t : R) (o : SvdOut R d) (i : Fin d) (a : Fin k) (hka : ¬ kept k o a = true) :
+    (stepO k β t o).V i a = 0 := by simp [stepO, hka]
+
+theorem stepO_l_of_not_kept (β t : R) (o : SvdOut R d) (a : Fin k) (hka : ¬ kept k o a = true) :
+    (stepO k β t o).l a = 0 := by simp [stepO, hka]
+
+theorem stepO_l_pos_iff (β t : R) (o : SvdOut R d) (a : Fin k) :
+    0 < (stepO k β t o).l a ↔ kept k o a = true := by
+  constructor
+  · intro hp
+    by_contra hka
+    rw [stepO_l_of_not_kept β t o a hka] at hp
+    exact lt_irrefl _ hp
+  · intro hka
+    have : (stepO k β t o).l a = deflRaw k o a := by simp [stepO, hka]
+    rw [this]
+    exact of_decide_eq_true hka
+
+/-- the unit-norm guard is the identity on the output of a step whose SVD meets its specification -/
+theorem guardNorm_id (sqrt : R → R) (hsq : ∀ x, 0 ≤ x → sqrt x * sqrt x = x) (hs0 : ∀ x, 0 ≤ sqrt x)
+    (g : Guards R) (hlo : g.lo ≤ 1) (hhi : 1 ≤ g.hi) {M : Matrix (Fin d) (Fin d) R} {o : SvdOut R d}
+    (h : SpecM M o) (hk : k ≤ d) (β t : R) :
+    guardNorm sqrt g (stepO k β t o).V (stepO k β t o).l = ((stepO k β t o).V, (stepO k β t o).l) := by
+  have hnorm : ∀ a : Fin k, kept k o a = true → colNorm sqrt (stepO k β t o).V a = 1 := by
+    intro a hka
+    have := stepO_colGram h hk β t a a
+    simp only [hka, and_self, if_true, colGram] at this
+    unfold colNorm
+    rw [this]
+    exact sqrt_one' sqrt hsq hs0
+  have hsafe : safeNormed g (1 : R) = true := by
+    simp [safeNormed, hlo, hhi]
+  unfold guardNorm
+  refine Prod.ext ?_ ?_
+  · funext i a
+    by_cases hka : kept k o a = true
+    · simp only [hnorm a hka, hsafe, if_true, ind, mul_one, div_one]
+    · simp only [stepO_V_of_not_kept β t o i a hka, zero_mul, zero_div]
+  · funext a
+    by_cases hka : kept k o a = true
+    · simp only [hnorm a hka, hsafe, if_true, ind, mul_one]
+    · simp only [stepO_l_of_not_kept β t o a hka, zero_mul]
+
+theorem absV_zero : absV (0 : R) = 0 := by simp [absV]
+
+/-- the padding-mass guard is the identity when no column has weight on the padding rows -/
+theorem guardPad_id (g : Guards R) (hthr : 0 ≤ g.thr) (ps : ℕ) (V : Mat R d k) (l : Vec R k)
+    (hpad : ∀ i a, V i a * padIx ps i.1 = 0) : guardPad g ps V l = (V, l) := by
+  have hm : ∀ a, padMass ps V a = 0 := by
+    intro a
+    unfold padMass
+    rw [sumFin_eq]
+    exact Finset.sum_eq_zero fun i _ => by rw [hpad i a, absV_zero]
+  have hd : ∀ a, decide (g.thr < padMass ps V a) = false := by
+    intro a
+    rw [hm a]
+    exact decide_eq_false (not_lt.mpr hthr)
+  unfold guardPad
+  refine Prod.ext ?_ ?_
+  · funext i a; simp only [hd a, ind, Bool.false_eq_true, if_false, sub_zero, mul_one]
+  · funext a; simp only [hd a, ind, Bool.false_eq_true, if_false, sub_zero, mul_one]
+
+/-- `M U = U diag(s²)` column by column -/
+theorem spec_col_eig {M : Matrix (Fin d) (Fin d) R} {o : SvdOut R d} (h : SpecM M o) (i a : Fin d) :
+    ∑ j, M i j * o.U j a = o.U i a * (o.s a * o.s a) := by
+  have hMU : M * toM o.U = toM o.U * diagonal (fun a => o.s a * o.s a) := by
+    rw [← h.recon, Matrix.mul_assoc, h.utu, Matrix.mul_one]
+  have := congrFun (congrFun hMU i) a
+  rw [Matrix.mul_apply, Matrix.mul_diagonal] at this
+  simpa using this
+
+/-- a kept singular vector vanishes on every row on which `M = B Bᵀ` vanishes -/
+theorem kept_col_zero_of_row_zero {M : Matrix (Fin d) (Fin d) R} {o : SvdOut R d} (h : SpecM M o) (hk : k ≤ d)
+    (i : Fin d) (hrow : ∀ j, M i j = 0) (a : Fin k) (hka : kept k o a = true) : uAt o.U i a.1 = 0 := by
+  have ha : a.1 < d := lt_of_lt_of_le a.2 hk
+  have he := spec_col_eig h i ⟨a.1, ha⟩
+  have hz : ∑ j, M i j * o.U j ⟨a.1, ha⟩ = 0 := Finset.sum_eq_zero fun j _ => by rw [hrow j, zero_mul]
+  rw [hz] at he
+  have hpos := kept_sq_pos h a hka
+  rw [show sAt o.s a.1 = o.s ⟨a.1, ha⟩ from by simp [sAt, ha]] at hpos
+  have : o.U i ⟨a.1, ha⟩ = 0 := by
+    rcases mul_eq_zero.mp he.symm with h1 | h1
+    · exact h1
+    · exact absurd h1 hpos.ne'
+  simp [uAt, ha, this]
+
+/-- the rows `≥ padding_start` of the matrix `_fd_update_root` hands to the SVD are zero (both blocks are masked) -/
+theorem dsB_row_zero (sqrt : R → R) (cfg : DsCfg R) (st : State R d k) (G : Mat R d d) (i : Fin d)
+    (hi : cfg.ps ≤ i.1) (c : Fin (k + d)) : dsB sqrt cfg st G i c = 0 := by
+  have hact : active (α := R) cfg.ps i.1 = 0 := by simp [active, not_lt.mpr hi]
+  unfold dsB fdB
+  induction c using Fin.addCases with
+  | left a => rw [Fin.addCases_left]; simp [dsInput, hact]
+  | right c => rw [Fin.addCases_right]; simp [dsMaskG, hact]
+
+theorem ds_stepO_pad_zero (sqrt : R → R) (cfg : DsCfg R) (hk : k ≤ d) (st : State R d k) (G : Mat R d d)
+    (o : SvdOut R d) (h : SvdSpec (dsB sqrt cfg st G) o) (β t : R) (i : Fin d) (a : Fin k) :
+    (stepO k β t o).V i a * padIx cfg.ps i.1 = 0 := by
+  by_cases hi : i.1 < cfg.ps
+  · simp [padIx, hi]
+  · by_cases hka : kept k o a = true
+    · have hrow : ∀ j, toM (outer (dsB sqrt cfg st G)) i j = 0 := by
+        intro j
+        simp only [toM_apply, outer, sumFin_eq]
+        exact Finset.sum_eq_zero fun c _ => by rw [dsB_row_zero sqrt cfg st G i (not_lt.mp hi) c, zero_mul]
+      have := kept_col_zero_of_row_zero h.specM hk i hrow a hka
+      simp [stepO, hka, this]
+    · rw [stepO_V_of_not_kept β t o i a hka, zero_mul]
+
+/-- **the guards are identities**: under `SvdSpec` the code-shaped guarded `_fd_update_root` returns exactly
+what the unguarded model returns -/
+theorem dsFdUpdateRootG_eq (sqrt pw : R → R) (hsq : ∀ x, 0 ≤ x → sqrt x * sqrt x = x) (hs0 : ∀ x, 0 ≤ sqrt x)
+    (g : Guards R) (hlo : g.lo ≤ 1) (hhi : 1 ≤ g.hi) (hthr : 0 ≤ g.thr) (cfg : DsCfg R) (hβ : 0 ≤ cfg.β)
+    (hk : k ≤ d) (st : State R d k) (ht : 0 ≤ st.t) (G : Mat R d d) (o : SvdOut R d)
+    (h : SvdSpec (dsB sqrt cfg st G) o) :
+    dsFdUpdateRootG sqrt pw g cfg st o = dsFdUpdateRootO pw cfg st o := by
+  unfold dsFdUpdateRootG dsFdUpdateRootO
+  by_cases hps : cfg.ps = 0
+  · simp only [hps, if_true]
+  · simp only [hps, if_false]
+    have h1 := guardNorm_id sqrt hsq hs0 g hlo hhi h.specM hk cfg.β st.t
+    rw [h1]
+    have h2 := guardPad_id g hthr cfg.ps (stepO k cfg.β st.t o).V (stepO k cfg.β st.t o).l
+      (ds_stepO_pad_zero sqrt cfg hk st G o h cfg.β st.t)
+    simp only [h2]
+    have hinv : (fun a : Fin k =>
+        if (sAt o.s a.1 * sAt o.s a.1 + cfg.β * st.t) * ind (decide (0 < (stepO k cfg.β st.t o).l a)) ≤ 0 then 0
+        else pw ((sAt o.s a.1 * sAt o.s a.1 + cfg.β * st.t) * ind (decide (0 < (stepO k cfg.β st.t o).l a))))
+        = invRoots k pw 0 cfg.β st.t o := by
+      funext a
+      unfold invRoots
+      by_cases hka : kept k o a = true
+      · have hp : 0 < (stepO k cfg.β st.t o).l a := (stepO_l_pos_iff cfg.β st.t o a).mpr hka
+        have hpos : 0 < sAt o.s a.1 * sAt o.s a.1 + cfg.β * st.t :=
+          add_pos_of_pos_of_nonneg (kept_sq_pos h.specM a hka) (mul_nonneg hβ ht)
+        have hd : decide (0 < (stepO k cfg.β st.t o).l a) = true := decide_eq_true hp
+        rw [hd]
+        simp only [ind, if_true, mul_one, hka, add_zero]
+        rw [if_neg (not_le.mpr hpos)]
+      · have hp : ¬ 0 < (stepO k cfg.β st.t o).l a := fun hp => hka ((stepO_l_pos_iff cfg.β st.t o a).mp hp)
+        have hd : decide (0 < (stepO k cfg.β st.t o).l a) = false := decide_eq_false hp
+        rw [hd]
+        simp [ind, hka]
+    have hz : ((List.finRange k).any fun a => decide ((stepO k cfg.β st.t o).l a ≤ 0))
+        = ((List.finRange k).any fun a => !(kept k o a)) := by
+      congr 1
+      funext a
+      by_cases hka : kept k o a = true
+      · have hp := (stepO_l_pos_iff cfg.β st.t o a).mpr hka
+        rw [decide_eq_false (not_le.mpr hp), hka]; rfl
+      · rw [stepO_l_of_not_kept cfg.β st.t o a hka, decide_eq_true (le_refl (0 : R))]
+        simp [hka]
+    have htl : decide ((if 0 < (stepO k cfg.β st.t o).t then (stepO k cfg.β st.t o).t else 0) ≤ 0)
+        = !(decide (0 < (stepO k cfg.β st.t o).t)) := by
+      by_cases hp : 0 < (stepO k cfg.β st.t o).t
+      · rw [if_pos hp, decide_eq_false (not_le.mpr hp), decide_eq_true hp]; rfl
+      · rw [if_neg hp, decide_eq_true (le_refl (0 : R)), decide_eq_false hp]; rfl
+    rw [hinv, hz, htl]
+end GuardLemmas
+
+section Oco
+variable {R : Type} [Field R] [LinearOrder R] [IsStrictOrderedRing R] [StarRing R] [TrivialStar R]
+  [StarOrderedRing R] {d k n : ℕ}
+
+/-- the gradient as a one-column factor -/
+def colOf (g : Vec R n) : Mat R n 1 := fun j _ => g j
+
+theorem gram_ocoB (st : OcoState R k n) (g : Vec R n) :
+    toM (outer (ocoB st g)) = sketchM st.denote + toM (colOf g) * (toM (colOf g))ᵀ := by
+  ext i j
+  have hN : (toM (colOf g) * (toM (colOf g))ᵀ) i j = g i * g j := by
+    simp [Matrix.mul_apply, colOf]
+  rw [Matrix.add_apply, sketchM, mdt_apply, hN]
+  simp only [toM_apply, outer, sumFin_eq, ocoB, Fin.sum_univ_castSucc,
+    OcoState.denote, if_true, Fin.castSucc_ne_last, if_false]
+  congr 1
+  refine Finset.sum_congr rfl fun a _ => ?_
+  ring
+
+theorem sAt_nonneg {M : Matrix (Fin d) (Fin d) R} {o : SvdOut R d} (h : SpecM M o) (i : ℕ) : 0 ≤ sAt o.s i := by
+  unfold sAt; split_ifs
+  · exact h.nonneg _
+  · exact le_rfl
+
+theorem cutoff_le_sAt {M : Matrix (Fin d) (Fin d) R} {o : SvdOut R d} (h : SpecM M o) (a : Fin k) :
+    cutoff k o ≤ sAt o.s a.1 := by
+  unfold cutoff
+  by_cases hkd : k < d
+  · have ha : a.1 < d := lt_trans a.2 hkd
+    have := h.sorted ⟨a.1, ha⟩ ⟨k, hkd⟩ (by simpa [Fin.le_def] using a.2.le)
+    simpa [sAt, hkd, ha] using this
+  · have : sAt o.s k = 0 := by simp [sAt, hkd]
+    rw [this]; exact sAt_nonneg h _
+
+/-- the OCO update keeps every row of `vt` (no masking); the sketch it denotes is the generic one -/
+theorem oco_sketch_eq (sqrt : R → R) (hsq : ∀ x, 0 ≤ x → sqrt x * sqrt x = x) {M : Matrix (Fin n) (Fin n) R}
+    (st : OcoState R k n) (o : SvdOut R n) (h : SpecM M o) :
+    sketchM (ocoFdUpdateO sqrt st o).denote = sketchM (stepO k 1 st.t o) ∧
+    (ocoFdUpdateO sqrt st o).denote.t = (stepO k 1 st.t o).t := by
+  refine ⟨?_, by simp [ocoFdUpdateO, OcoState.denote, stepO, rho, cutoff]⟩
+  ext i j
+  rw [sketchM, sketchM, mdt_apply, mdt_apply]
+  refine Finset.sum_congr rfl fun a _ => ?_
+  have hraw : 0 ≤ (sAt o.s a.1 - cutoff k o) * (sAt o.s a.1 + cutoff k o) :=
+    mul_nonneg (sub_nonneg.mpr (cutoff_le_sAt h a)) (add_nonneg (sAt_nonneg h _) (cutoff_nonneg h))
+  have hs := hsq _ hraw
+  simp only [toM_apply, ocoFdUpdateO, OcoState.denote, Fin.val_castSucc]
+  change uAt o.U i a.1 * (sqrt ((sAt o.s a.1 - cutoff k o) * (sAt o.s a.1 + cutoff k o)) *
+      sqrt ((sAt o.s a.1 - cutoff k o) * (sAt o.s a.1 + cutoff k o))) * uAt o.U j a.1 = _
+  rw [hs]
+  by_cases hka : kept k o a = true
+  · simp [stepO, hka, deflRaw]
+  · have h0 : (sAt o.s a.1 - cutoff k o) * (sAt o.s a.1 + cutoff k o) = 0 :=
+      le_antisymm (not_lt.mp fun hp => hka (decide_eq_true hp)) hraw
+    rw [h0]
+    simp [stepO, hka]
+
+theorem oco_bracket (sqrt : R → R) (hsq : ∀ x, 0 ≤ x → sqrt x * sqrt x = x) (hk : k ≤ n)
+    (st : OcoState R k n) (g : Vec R n) (o : SvdOut R n) (h : SvdSpec (ocoB st g) o)
+    (C : Matrix (Fin n) (Fin n) R) (hlo : (C - sketchM st.denote).PosSemidef)
+    (hhi : (sketchM st.denote + st.t • (1 : Matrix (Fin n) (Fin n) R) - C).PosSemidef) :
+    (C + toM (colOf g) * (toM (colOf g))ᵀ - sketchM (ocoFdUpdateO sqrt st o).denote).PosSemidef ∧
+    (sketchM (ocoFdUpdateO sqrt st o).denote + (ocoFdUpdateO sqrt st o).t • (1 : Matrix (Fin n) (Fin n) R)
+      - (C + toM (colOf g) * (toM (colOf g))ᵀ)).PosSemidef := by
+  have hs := h.specM
+  rw [gram_ocoB] at hs
+  obtain ⟨e1, e2⟩ := oco_sketch_eq sqrt hsq st o hs
+  have hs1 : SpecM ((1 : R) • sketchM st.denote + toM (colOf g) * (toM (colOf g))ᵀ) o := by rwa [one_smul]
+  have := bracket_core (k := k) (1 : R) st.t zero_le_one hk hs1 hlo hhi
+  rw [one_smul] at this
+  have e3 : (ocoFdUpdateO sqrt st o).t = (stepO k 1 st.t o).t := e2
+  rw [e1, e3]
+  exact this
+end Oco
+
+section Cut
+variable {α : Type} [Zero α] [One α] [Add α] [Sub α] [Mul α] {D k : ℕ}
+
+theorem publicReload_V (dim : ℕ) (st : State α D k) (inv : Vec α k) (c f : α) (i : Fin D) (a : Fin k) :
+    (publicReload dim st inv c f).V i a = if i.1 < dim then st.V i a else 0 := by
+  simp [publicReload, unpackState, cutRepad, packState, packN, a.2, i.2]
+
+theorem publicReload_l (dim : ℕ) (st : State α D k) (inv : Vec α k) (c f : α) (a : Fin k) :
+    (publicReload dim st inv c f).l a = if D - k + a.1 < dim then st.l a else 0 := by
+  have h1 : ¬ (k + 1 < k) := by omega
+  have h2 : ¬ (k + 1 = k) := by omega
+  have h3 : D - k ≤ D - k + a.1 := Nat.le_add_right _ _
+  have h4 : D - k + a.1 - (D - k) = a.1 := by omega
+  simp [publicReload, unpackState, cutRepad, packState, packN, h1, h2, h3, h4, a.2]
+
+theorem publicReload_t (hD : k + 2 < D) (dim : ℕ) (hdim : 1 < dim) (st : State α D k) (inv : Vec α k) (c f : α) :
+    (publicReload dim st inv c f).t = st.t := by
+  have h1 : ¬ (k + 1 < k) := by omega
+  have h2 : ¬ (k + 1 = k) := by omega
+  have h3 : ¬ (D - k ≤ 1) := by omega
+  simp [publicReload, unpackState, cutRepad, packState, packN, h1, h2, h3, hdim]
+end Cut
+
 end PrecondVerif.FD
